@@ -7,6 +7,8 @@ import (
 	"go/token"
 	"go/types"
 	"math/big"
+
+	"golang.org/x/tools/go/ssa"
 )
 
 var (
@@ -306,6 +308,14 @@ func (e *Engine) binop(op token.Token, t types.Type, x, y Value) Value {
 	panic(engineErr("symbolic binop %s on type %s unsupported", op, t))
 }
 
+func isFuncVal(v Value) bool {
+	switch v.(type) {
+	case *Closure, *ssa.Function, *ssa.Builtin:
+		return true
+	}
+	return false
+}
+
 func shiftCount(y Value) (uint64, bool) {
 	switch y := y.(type) {
 	case uint64:
@@ -509,6 +519,10 @@ func (e *Engine) andV(a, b Value) Value {
 
 // equals compares two values of static type t; the result is bool or *Term.
 func (e *Engine) equals(t types.Type, x, y Value) Value {
+	if isFuncVal(x) || isFuncVal(y) {
+		// func values are only comparable with nil
+		return isNilFunc(x) && isNilFunc(y)
+	}
 	switch x := x.(type) {
 	case nil:
 		return y == nil || isNilFunc(y)
